@@ -725,6 +725,43 @@ fn pairs_case(w: &DisWorld, ctx: &mut Ctx, case: u64) {
   }
 }
 
+/// operand stage: case = first byte of a 2- or 3-byte instruction; every operand value (all
+/// 256, or all 65536 in the thorough tier / both bytes over all 256 against a boundary set in
+/// the quick tier), alone and followed by NOP, at the four start addresses
+fn operands_case(ctx: &mut Ctx, case: u64, thorough: bool) {
+  let op = case as u8;
+  if op == 0xCB || r1::is_undefined(op) {
+    return;
+  }
+  let len = r1::info(op).expect("R1 length").0;
+  let nop = Var { bytes: vec![0x00], class: 0 };
+  let edge: [u8; 8] = [0x00, 0x01, 0x7F, 0x80, 0x81, 0xCB, 0xFE, 0xFF];
+  let mut run = |bytes: Vec<u8>, class: usize| {
+    let v = Var { bytes, class };
+    for s in 0..4 {
+      check_dis(ctx, &[&v], s);
+      check_dis(ctx, &[&v, &nop], s);
+    }
+  };
+  match len {
+    2 => {
+      for o in 0..=255u8 {
+        run(vec![op, o], if op == 0x10 { 5 } else { 1 });
+      }
+    },
+    3 => {
+      for lo in 0..=255u8 {
+        for hi in 0..=255u8 {
+          if thorough || edge.contains(&lo) || edge.contains(&hi) {
+            run(vec![op, lo, hi], 2);
+          }
+        }
+      }
+    },
+    _ => {},
+  }
+}
+
 /// triples over representatives only: case = index of the first representative
 fn triples_rep_case(w: &DisWorld, ctx: &mut Ctx, case: u64) {
   let a = &w.vars[w.reps[case as usize]];
@@ -817,6 +854,19 @@ pub fn run(tier: &str) -> i32 {
     &format!("empty + every sequence of 1 and 2 complete instructions over {} instruction variants (255 first bytes + 256 CB bytes, operand sets {{00,FF,CB,A1}} / {{0000,FFFF,B2A1,01CB}}) x 4 start addresses", nvars),
     r,
   );
+  let r = run_pool(256, &PoolOpts { chunk: 1, bitmap_bits: 1 << 16, ..PoolOpts::default() }, |_| (), |_, case, ctx| operands_case(ctx, case, thorough), crash("disassemble-operands"));
+  let c2 = rep.add_stage(
+    "disassemble-operands",
+    if thorough {
+      "every 2-byte instruction x all 256 operand bytes and every 3-byte instruction x all 65536 operand words, alone and followed by NOP, x 4 start addresses"
+    } else {
+      "every 2-byte instruction x all 256 operand bytes and every 3-byte instruction x (all 256 low bytes x 8 boundary high bytes + 8 boundary low bytes x all 256 high bytes), alone and followed by NOP, x 4 start addresses"
+    },
+    r,
+  );
+  for i in 0..cd.len() {
+    cd[i] += c2[i];
+  }
   let r = run_pool(nreps, &PoolOpts { chunk: 1, bitmap_bits: 1 << 16, ..PoolOpts::default() }, |_| dis_world(), |w, case, ctx| triples_rep_case(w, ctx, case), crash("disassemble-triples"));
   let c3 = rep.add_stage("disassemble-triples", &format!("every triple over {} representatives (>= 2 per length class) x 4 start addresses", nreps), r);
   for i in 0..cd.len() {
